@@ -875,6 +875,7 @@ macro "lock_auto" : tactic => `(tactic| (
 theorem lockinv_step {s s' : Sys} {a : Act} (hi : LockInv s) (h : astep s a = some s') :
     LockInv s' := by
   cases a <;> simp only [astep] at h
+  case config big => cases h; exact hi
   case cmdBegin th c => simp only [stepCmdBegin] at h; lock_auto
   case bound th => simp only [stepBound] at h; lock_auto
   case pin th => simp only [stepPin] at h; lock_auto
